@@ -288,9 +288,12 @@ class Segment:
             with open(self.state.data_file) as fh:
                 self._rows_seen = len([ln for ln in fh if not ln.startswith("#")])
         live = [int(t.path_number) for t in self.state._trajs[:self.N]]
-        self.emit("Restart" if self.restarted else "Init",
-                  {"frac": [[pn, self.frac_of(pn)] for pn in live if pn in self.state.traj_data],
-                   "seed": int(config["simulation"]["seed"])})
+        args = {"frac": [[pn, self.frac_of(pn)] for pn in live if pn in self.state.traj_data],
+                "seed": int(config["simulation"]["seed"])}
+        if self.restarted:
+            args["rec"] = self.read_restart()          # the record the restarted process found on disk
+            args["rows_on_disk"] = self.rows_on_disk()
+        self.emit("Restart" if self.restarted else "Init", args)
         return True
 
     # -- projection ------------------------------------------------------------
@@ -393,15 +396,17 @@ class Segment:
         self._foreign_who = fr.who
         return out
 
-    def complete(self, pin, md_done, do_pick=True):
-        """treat_output for the finished job of `pin`; then the optional next pick."""
+    def pre_complete(self, md_done):
+        """Snapshot taken just before treat_output(md_done)."""
         st = self.state
-        pre_live = {int(t.path_number): [Fraction(str(x)) for x in st.traj_data[int(t.path_number)]["frac"][:self.N]]
-                    for t in st._trajs[:self.N]}
-        job_ens = [int(e) + 1 for e in md_done["ens_nums"]]
-        old = [int(p) for p in md_done["pnum_old"]]
-        del self.inflight[pin]
-        md = st.treat_output(md_done)
+        return {"pre_live": {int(t.path_number): [Fraction(str(x)) for x in st.traj_data[int(t.path_number)]["frac"][:self.N]]
+                             for t in st._trajs[:self.N]},
+                "ens": [int(e) + 1 for e in md_done["ens_nums"]],
+                "old": [int(p) for p in md_done["pnum_old"]], "pin": int(md_done["pin"])}
+
+    def post_complete(self, snap, md):
+        """Complete event from the state after treat_output returned md."""
+        st = self.state
         new = [int(md["picked"][e]["traj"].path_number) for e in md["ens_nums"]]
         post = {}
         for t in st._trajs[:self.N]:
@@ -412,16 +417,25 @@ class Segment:
             if fr is None:
                 dfrac.append([pn, None])
                 continue
-            base = pre_live.get(pn, [Fraction(0)] * self.N) if not (md["status"] == "ACC" and pn in new) else [Fraction(0)] * self.N
+            fresh = md["status"] == "ACC" and pn in new
+            base = [Fraction(0)] * self.N if fresh else snap["pre_live"].get(pn, [Fraction(0)] * self.N)
             dfrac.append([pn, [float(a - b) for a, b in zip(fr, base)]])
         rows = self.read_new_rows()
-        args = {"pin": int(pin), "acc": md["status"] == "ACC", "status": str(md["status"]), "ens": job_ens,
-                "old": old, "new": new, "dfrac": dfrac, "rows": rows, "rec": self.read_restart(),
+        args = {"pin": snap["pin"], "acc": md["status"] == "ACC", "status": str(md["status"]), "ens": snap["ens"],
+                "old": snap["old"], "new": new, "dfrac": dfrac, "rows": rows, "rec": self.read_restart(),
                 "frac": [[pn, self.frac_of(pn) if pn in st.traj_data else None] for pn in sorted(post)],
                 "store": self.store_view(), "foreign": int(getattr(self, "_foreign", 0)),
                 "foreign_who": list(getattr(self, "_foreign_who", []))[:5]}
         self._foreign = 0
-        ev = self.emit("Complete", args)
+        return self.emit("Complete", args)
+
+    def complete(self, pin, md_done, do_pick=True):
+        """treat_output for the finished job of `pin`; then the optional next pick."""
+        st = self.state
+        snap = self.pre_complete(md_done)
+        del self.inflight[pin]
+        md = st.treat_output(md_done)
+        ev = self.post_complete(snap, md)
         self._pend = md if st.cstep + st.workers <= st.tsteps else None
         nxt = self.loop_pick() if do_pick else None
         return ev, nxt
@@ -476,6 +490,20 @@ class Segment:
             rows.append({"pn": pn, "len": length, "frac": fr, "w": wt, "ncol": len(rest)})
         self._rows_seen = len(lines)
         return rows
+
+    def rows_on_disk(self):
+        pns = []
+        path = self.state.data_file
+        if os.path.isfile(path):
+            with open(path) as fh:
+                for ln in fh:
+                    if ln.startswith("#") or not ln.strip():
+                        continue
+                    try:
+                        pns.append(int(float(ln.split("\t")[1])))
+                    except (ValueError, IndexError):
+                        pns.append(-1)
+        return pns
 
     def store_view(self):
         """Which path directories exist under load/ and whether their files are there."""
